@@ -191,6 +191,8 @@ type WorkerOpts struct {
 	// CrashIsViolation: a dying worker is a violation of the
 	// property (otherwise inconclusive harness failure).
 	CrashIsViolation bool
+	// HandlesRaceLog: the check reads the race detector log itself.
+	HandlesRaceLog bool
 	// CPULimitIsViolation: exhausting CPUSeconds (a CPU-time bound that
 	// is load independent and far above the case's normal cost) in a
 	// sub-case is reported as non-termination, a violation.
@@ -407,6 +409,7 @@ func WorkerMain(ck Check, caseFile, journal string, from int) {
 		Note("")
 		fmt.Fprintf(jf, "B %d\n", c.Idx)
 		var res Result
+		raceOff := raceLogSize()
 		pi := Protect(func() { res = ck.Run(c) })
 		if pi != nil {
 			// A panic that escaped the check's own handling:
@@ -414,6 +417,23 @@ func WorkerMain(ck Check, caseFile, journal string, from int) {
 			res = Result{Idx: c.Idx, Verdict: Violated, Sig: CrashSig("run", pi.Frame, pi.Msg), Detail: "panic: " + pi.Msg + "\n" + trunc(pi.Stack, 3000), Crashed: true}
 		}
 		res.Idx = c.Idx
+		// Race-build workers: every report the race detector appended to this
+		// process's log while the case ran is a violation (checks that handle
+		// the log themselves set HandlesRaceLog).
+		if c.Race && !ck.Opts().HandlesRaceLog {
+			for _, rep := range raceReportsSince(raceOff) {
+				sv := SubViolation{RaceSig(rep), "race detector report while running case " + c.Name + ":\n" + trunc(rep, 2500)}
+				if res.Verdict != Violated {
+					res.Verdict, res.Sig, res.Detail = Violated, sv.Sig, sv.Detail
+				} else {
+					res.More = append(res.More, sv)
+				}
+			}
+			if res.Counters == nil {
+				res.Counters = map[string]int64{}
+			}
+			res.Counters["race_log_checks"]++
+		}
 		rb, _ := json.Marshal(res)
 		fmt.Fprintf(jf, "E %d %s\n", c.Idx, rb)
 	}
@@ -1082,4 +1102,59 @@ func RaceLogPath() string {
 		}
 	}
 	return ""
+}
+
+func raceLogSize() int64 {
+	p := RaceLogPath()
+	if p == "" {
+		return 0
+	}
+	st, err := os.Stat(p)
+	if err != nil {
+		return 0
+	}
+	return st.Size()
+}
+
+// raceReportsSince returns the report blocks appended to this process's
+// race log after offset off.
+func raceReportsSince(off int64) []string {
+	p := RaceLogPath()
+	if p == "" {
+		return nil
+	}
+	b, err := os.ReadFile(p)
+	if err != nil || int64(len(b)) <= off {
+		return nil
+	}
+	var out []string
+	for _, blk := range strings.Split(string(b[off:]), "==================") {
+		if strings.Contains(blk, "WARNING: DATA RACE") {
+			out = append(out, blk)
+		}
+	}
+	return out
+}
+
+// RaceSig deduplicates a race report by the gopar frames involved.
+func RaceSig(report string) string {
+	var frames []string
+	seen := map[string]bool{}
+	for _, line := range strings.Split(report, "\n") {
+		line = strings.TrimSpace(line)
+		if strings.HasPrefix(line, "github.com/akalin/gopar/") {
+			f := strings.TrimPrefix(line, "github.com/akalin/gopar/")
+			if i := strings.Index(f, "("); i > 0 {
+				f = f[:i]
+			}
+			if !seen[f] {
+				seen[f] = true
+				frames = append(frames, f)
+			}
+		}
+		if len(frames) >= 4 {
+			break
+		}
+	}
+	return "data-race|" + strings.Join(frames, ",")
 }
